@@ -285,6 +285,10 @@ def main(argv: List[str]) -> int:
         rep.violation({'text': it['text'], 'origin': it['origin'], 'allow': it['allow']},
                       {'failing_clause': v, 'parse': rec['parse'], 'renders': [x for x in rec['renders'] if x != 'ok'][:5], 'where': rec['where']})
     rep.notes['inputs_by_origin'] = per
+    never = [o for o in ('soup', 'long soup', 'document', 'mutation', 'kind removed', 'declaration removed', 'raw literal', 'number-like default',
+                         'awkward identifier', 'degenerate') if not per.get(o)]
+    if never or ndb < 500:
+        raise core.Machinery('C08: input families missing: %s; inputs that parsed to a database (and were rendered): %d' % (never, ndb))
     rep.notes['parsed_to_a_database'] = ndb
     rep.samples += [{'origin': items[i]['origin'], 'text': items[i]['text'][:300]} for i in (5, len(items) // 2, len(items) - 30)]
     return rep.finish()
